@@ -17,4 +17,22 @@ CHECKS = {
         quick=dict(stages=[st(2000, timeout=300)]),
         thorough=dict(stages=[st(15000, shards=16, timeout=1500)]),
     ),
+    "C01": dict(
+        pkg="c01", level="exploration",
+        rule="rapid-generated histories (1-40 operations: slice, rank-reducing slice, Get/Get1-3, Set/Set1-3, Apply, Apply1, ApplySlice, CopyFrom) over one root of a drawn element type (8) and back-end (Go slice / C memory with canaries), "
+             "executed against an extensional reference model (a view = explicit list of storage offsets); after every operation the raw storage, every live view element-by-element and the caller's loc vectors are compared. "
+             "Non-trivial = the history writes through a view of depth >= 2 whose chain has a step > 1, or makes a bulk write to a non-contiguous target; distinct = distinct history (hash of the operation list)",
+        assumptions=["C-backed int/uint arrays hold 32-bit C ints: generated values stay in the common range"],
+        quick=dict(stages=[st(4000, timeout=600)]),
+        thorough=dict(stages=[st(40000, shards=16, timeout=2400)]),
+    ),
+    "C02": dict(
+        pkg="c02", level="exploration",
+        rule="rapid-generated views (classes forced: whole, leading rows, row-gapped, column, stepped, single element, extent-1 dims, slice chains to depth 3, reshaped) of all 8 element types and both back-ends; for each view: Unroll, Contiguous, Maximum/Minimum, "
+             "ReshapeFast, Reshape/MustReshape to right and wrong sizes, aliasing of reshape/unroll results, and one binary operation (CopyFrom, ApplySlice, Scale, AddTo, ApplyFunc1) against a second view of either contiguity, all compared with the row-major element-wise definition on the extensional model; "
+             "plus the integer helpers (Offsets, IDivMod, Increment, Product, Multiply, Argmax, Maximum) on random vectors. Non-trivial = the view is non-contiguous, stepped or reshaped, or the binary operation has mixed contiguity, or a helper case of rank >= 2; distinct = distinct case",
+        assumptions=[],
+        quick=dict(stages=[st(6000, timeout=600)]),
+        thorough=dict(stages=[st(60000, shards=16, timeout=2400)]),
+    ),
 }
